@@ -641,7 +641,9 @@ func (rl *Shell) viDeleteChar() {
 
 	vii := rl.Iterations.Get()
 
-	for i := 1; i <= vii; i++ {
+	// Never delete past the end of the line: with a count larger than
+	// what is left, only the characters from the cursor onward are cut.
+	for i := 1; i <= vii && rl.cursor.Pos() < rl.line.Len(); i++ {
 		cutBuf = append(cutBuf, rl.cursor.Char())
 		rl.line.CutRune(rl.cursor.Pos())
 	}
